@@ -52,9 +52,28 @@ def gen_real_case(rng, codes):
     return {'codes': codes, 'events': events, 'style': 'real-' + style}
 
 
-def fixed_cases():
+MODEL_MAX_LONG = 8200        # the Lean model appends to association lists: quadratic in the window length
+
+
+def long_lengths(tier):
+    """(lengths compared with the Lean model, lengths run on the implementation + declarative oracle only)."""
+    from .. import mined
+    changed = mined.changed_files()
+    every = mined.window_lengths(tier, changed)
+    wide = tier != 'quick' or bool(changed)
+    small = [n for n in every if n <= MODEL_MAX_LONG]
+    big = [n for n in every if n > MODEL_MAX_LONG]
+    # budgets: the defaults always fit; cost of the model ~ n^2 (4098^2 ~ 0.2 s per command), of the real code ~ n
+    small, _ = mined.take_within(small, (400 if wide else 12) * 4098 ** 2, cost=lambda n: n * n)
+    big, _ = mined.take_within(big, 1500000 if wide else 0)
+    return small, big
+
+
+def fixed_cases(lengths=(1022, 1023, 1024, 1025, 2500)):
     """Hand-written shapes named in the property text (tests never feed them): crossing, nested, re-opened
-    START, stray END, END twice, qualifier 3, two threads with the same code, the two domains on one thread."""
+    START, stray END, END twice, qualifier 3, two threads with the same code, the two domains on one thread;
+    long windows of `lengths` records (mined.window_lengths: around 1024 and 4096, and — on a changed source or in the
+    thorough tier — around every number the pairing / reader / changed files mention and the powers of two up to 2^16)."""
     tn = P.trace_domain_names()
     codes = [[0x40c000c, 'BSC_read', True], [0x40c0010, 'BSC_write', True], [0x7000008, tn[0], True],
              [0x7010008, tn[1], False], [0x1020004, 'KTrap_Debug', False], [0x5550000, None, False]]
@@ -73,15 +92,55 @@ def fixed_cases():
         'same-eid-other-thread-end': [(1, A, 1), (2, A, 2), (1, A, 2)],
         'empty': [],
     }
-    # long windows (a call that encloses more than a thousand records of its thread): nothing may be dropped
-    for n in (1022, 1023, 1024, 1025, 2500):
-        hs['long-%d' % n] = [(1, A, 1)] + [(1, B, 0)] * n + [(1, A, 2)]
+    # long windows (a call that encloses thousands of records of its thread): nothing may be dropped
+    for n in lengths:
+        hs['long-%d' % n] = long_history(codes, n)
     hs['long-nested'] = [(1, A, 1), (1, B, 1)] + [(1, U, 0)] * 1100 + [(1, B, 2), (1, A, 2)]
+    hs['long-nested-4096'] = [(1, A, 1), (1, B, 1)] + [(1, U, 0)] * 4096 + [(1, B, 2), (1, A, 2)]
     out = []
     for nm, h in hs.items():
         out.append({'codes': codes, 'events': [[i, t, e, q, z] for i, (t, e, q) in enumerate(h)],
                     'style': 'fixed-' + nm})
     return out
+
+
+def long_history(codes, n):
+    A, B = codes[0][0], codes[1][0]
+    return [(1, A, 1)] + [(1, B, 0)] * n + [(1, A, 2)]
+
+
+def expand(case):
+    """A long case is recorded compactly ({'long': n}); its event list is rebuilt here."""
+    if 'events' in case or 'long' not in case:
+        return case
+    c = dict(case)
+    c['events'] = [[i, t, e, q, [0, 0, 0, 0]] for i, (t, e, q) in enumerate(long_history(case['codes'], case['long']))]
+    return c
+
+
+def long_section(rep, lengths):
+    """Windows too long for the Lean model's quadratic lists: the real parser (recording stub handlers) and the declarative
+    oracle only — a failing-input search, no model comparison."""
+    sec = rep.section('pairing-long')
+    sec['rule'] = ('code-only: one START, n NONE-qualified records of another code on the same thread, the END, for window '
+                   'lengths n > %d of mined.window_lengths (numbers mentioned by the pairing / reader / changed source files '
+                   '+-1, powers of two up to 2^16 +-1); real TracesParser with recording stubs against the declarative oracle'
+                   % MODEL_MAX_LONG)
+    codes = fixed_cases(())[0]['codes']
+    for n in lengths:
+        compact = {'codes': codes, 'long': n, 'style': 'long-%d' % n}
+        case = expand(compact)
+        sec['cases'] += 1
+        try:
+            got = impl_stub(case)
+        except Exception as e:
+            got = 'err ' + core.err_name(e)
+        r = P.oracle_per_event(case, got)
+        if r:
+            rep.add_failure(r[0], r[1], {'section': 'pairing-long', 'case': compact, 'impl': got[-300:]})
+        else:
+            sec['distinct_nontrivial'] += 1
+    sec['dist'] = {'lengths': len(lengths), 'longest': max(lengths) if lengths else 0}
 
 
 def impl_stub(case):
@@ -136,6 +195,8 @@ def line_pyir(case):
 
 SECTIONS = {
     'pairing': (lambda c: P.line('pairg', c), impl_stub, P.oracle_per_event),
+    'pairing-names': (lambda c: P.line('pairg', c), impl_stub, P.oracle_per_event),
+    'pairing-long': (lambda c: P.line('pairg', c), impl_stub, P.oracle_per_event),
     'pairing-pregate': (lambda c: P.line('pair', c), impl_pregate, oracle_pregate),
     'pairing-ir': (line_pyir, impl_stub, P.oracle_per_event),
     'real': (lambda c: P.line('pairg', c), impl_real, P.oracle_per_event),
@@ -155,11 +216,20 @@ def translation_tie(rep):
     return 'unsupported' not in ans
 
 
-RULE_PAIRING = ('11 hand-written shapes + seeded histories (0..40 events, thorough also 0..120) over 1-4 thread '
+RULE_NAMES = ('every name N of: the registered handler names, every string literal of the package source that is or looks like '
+              'a trace name (tools/kdv/mined.py; names mentioned by changed files first), names of the bundled table without '
+              'decoder (a spread on the quick tier of an unchanged tree, all of them otherwise) — in every role of scripted '
+              'histories with a generic decodable code A and a NONE-qualified filler r: [S A, r, S N, r, E A, E N], '
+              '[S N, S A, r, E N, E A], [S A, S N, E N, r, E A], [S A, N(q=0), r, E A], [S A, N(q=3), r, E A], '
+              '[S N, r, S N, r, E N], two threads [S A t1, S N t2, r t1, r t2, E A t1, E N t2], and N never closed; N with '
+              'its real id where the table knows it; trace-domain N also with a trace-domain partner; real TracesParser with '
+              'recording stubs, declarative oracle, Lean model `pairg`')
+RULE_PAIRING = ('11 hand-written shapes + long windows + seeded histories (0..40 events, thorough also 0..120) over 1-4 thread '
                 'ids x a 12-code alphabet (4 decodable, 3 trace-domain, 1 trace-domain without handler, 2 '
                 'known-but-undecoded, 2 unknown ids) x qualifiers 0..3, styles random/nested/crossing/'
                 'start-heavy/end-heavy with re-opened STARTs, duplicated and stray ENDs; real TracesParser with '
-                'recording stub handlers; compared per event: nothing / window timestamps / window dropped by '
+                'recording stub handlers; one or two names of each alphabet are real names (handler names, names the source '
+                'mentions, names of the bundled table); compared per event: nothing / window timestamps / window dropped by '
                 'the gate; non-trivial = histories that deliver at least one multi-event window')
 
 
@@ -237,13 +307,21 @@ def correspondence(rep, rng, tier):
     kind = lambda c, got: c['style']  # noqa: E731
     nontriv = lambda c, got: got.startswith('ok') and P.has_multi_window(got)  # noqa: E731
     chunks = [(6000, 40)] if tier == 'quick' else [(10000, 40)] * 9 + [(3000, 120)]
+    from .. import mined
+    pool = P.name_pool(tier)
+    small, big = long_lengths(tier)
+    fixed = fixed_cases(small)
+    rep.notes.append('mined: %d names in every role (%d handler names, %d name literals of the source, %d table names without '
+                     'decoder); window lengths %d..%d (%d compared with the model, %d on the code only); changed files: %s'
+                     % (len(pool['all']), len(pool['handlers']), len(pool['mined']), len(pool['table']),
+                        min(small + big), max(small + big), len(small), len(big), mined.changed_files() or 'none'))
     first = True
     for n, maxlen in chunks:                       # chunked: bounded memory in the thorough tier
-        cases = (fixed_cases() if first else []) + [P.gen_history_case(rng, maxlen=maxlen) for _ in range(n)]
+        cases = (fixed if first else []) + [P.gen_history_case(rng, maxlen=maxlen, pool=pool) for _ in range(n)]
         run_section(rep, 'pairing', cases,
                     line_fn=lambda c: P.line('pairg', c), impl_fn=impl_stub, oracle_fn=P.oracle_per_event,
                     nontrivial_fn=nontriv, kind_fn=kind, rule=RULE_PAIRING)
-        sub = (cases[:len(fixed_cases())] if first else []) + cases[len(fixed_cases()) if first else 0::3]
+        sub = (cases[:len(fixed)] if first else []) + cases[len(fixed) if first else 0::3]
         run_section(rep, 'pairing-pregate', sub,
                     line_fn=lambda c: P.line('pair', c), impl_fn=impl_pregate, oracle_fn=oracle_pregate,
                     nontrivial_fn=nontriv, kind_fn=kind,
@@ -258,6 +336,14 @@ def correspondence(rep, rng, tier):
                              'whether a handler result came back) against the real TracesParser with recording stub '
                              'handlers — tests the translator and the interpreter, not the hand model')
         first = False
+    names = pool['all']
+    for i in range(0, len(names), 400):             # chunked like `pairing`
+        run_section(rep, 'pairing-names', P.name_role_cases(names[i:i + 400], pool['handlers']),
+                    line_fn=lambda c: P.line('pairg', c), impl_fn=impl_stub, oracle_fn=P.oracle_per_event,
+                    nontrivial_fn=nontriv, kind_fn=kind, rule=RULE_NAMES)
+    long_section(rep, big)
+    P.shrink_failures(rep, 'pairing-names', impl_stub, P.oracle_per_event, lambda c: P.line('pairg', c))
+    P.shrink_failures(rep, 'pairing-long', impl_stub, P.oracle_per_event, lambda c: P.line('pairg', c)[:4000], expand=expand)
     P.shrink_failures(rep, 'pairing', impl_stub, P.oracle_per_event, lambda c: P.line('pairg', c))
     P.shrink_failures(rep, 'pairing-pregate', impl_pregate, oracle_pregate, lambda c: P.line('pair', c))
     value_equal_section(rep, rng, tier)
@@ -307,16 +393,27 @@ def replay(path):
         print('oracle: property holds on this input')
         return 0
     line_fn, impl_fn, oracle = SECTIONS[sec]
+    case = expand(case)
+    if rp.get('case', {}).get('name'):
+        print('name in every role:', rp['case']['name'], '(%s)' % case.get('style'))
+    if len(case['events']) > MODEL_MAX_LONG:        # beyond the model's reach: implementation and oracle only
+        line_fn = None
     try:
         got = impl_fn(case)
     except Exception as e:
         got = 'err ' + core.err_name(e)
-    model = core.drive([line_fn(case)])[0]
+    model = core.drive([line_fn(case)])[0] if line_fn else '(not run: window too long for the model)'
+    print('codes (id name decodable):', case['codes'])
     print('history (timestamp tid code qualifier):')
-    for e in case['events']:
+    evs = case['events']
+    for e in (evs if len(evs) <= 60 else evs[:20]):
         print('   %d tid=%d code=%#x q=%d' % (e[0], e[1], e[2], e[3]))
-    print('impl :', got)
-    print('model:', model)
+    if len(evs) > 60:
+        print('   ... %d records ...' % (len(evs) - 40))
+        for e in evs[-20:]:
+            print('   %d tid=%d code=%#x q=%d' % (e[0], e[1], e[2], e[3]))
+    print('impl :', got if len(got) < 4000 else got[:1500] + ' ... ' + got[-1500:])
+    print('model:', model if len(model) < 4000 else model[:1500] + ' ... ' + model[-1500:])
     res = oracle(case, got)
     if res:
         print('oracle:', res[0], '-', res[1])
